@@ -17,7 +17,9 @@ TECHNIQUE = ("model-based generation of error sequences and policy decisions (Hy
              "on a deterministic simulated network; a sequential reference model of plan position, retry count and consistency "
              "level predicts every frame, every policy consultation and the outcome")
 RULE = ("A case is 1-3 fake nodes with a fixed plan, one statement (simple / bound / batch, consistency level unset or "
-        "ONE/QUORUM/ALL, idempotent or not), an optional constant speculative-execution policy, a script of answers for the "
+        "ONE/QUORUM/ALL, idempotent or not; the flag of the executed statement is inherited from the PreparedStatement at bind "
+        "time, or set on the bound/batch statement itself while the PreparedStatement / the statement inside the batch says the "
+        "opposite, or the PreparedStatement's flag is flipped after binding -- the executed statement's own flag is the law), an optional constant speculative-execution policy, a script of answers for the "
         "successive attempts (7 retryable server errors, connection close/reset, non-retryable errors, rows, void; each "
         "optionally after a pause longer than the speculative delay) and a decision oracle (installed on the execution profile or on the statement): the list of (RETRY | "
         "RETRY_NEXT_HOST | RETHROW | IGNORE, consistency None/ANY/ONE/QUORUM/ALL) the policy returns.  The fake nodes decode "
@@ -25,11 +27,16 @@ RULE = ("A case is 1-3 fake nodes with a fixed plan, one statement (simple / bou
         "model predicts the exact frame sequence, the policy consultations (method, retry_num) and the outcome; with a "
         "speculative plan the order-independent invariants are checked (retry_num, one consultation per error, consistency "
         "of every frame = last chosen level, and a RETRY decision for a server error of a healthy host produces a frame to that "
-        "very host even while another attempt of the execution is in flight elsewhere).  Non-trivial: the policy was consulted at least twice.  Distinct by case digest.")
+        "very host even while another attempt of the execution is in flight elsewhere).  In every mode, two attempts of one "
+        "execution in flight at once without a speculative plan being due (no policy, or the EXECUTED statement not marked "
+        "idempotent, whatever its PreparedStatement or contained statements say) is a violation.  Non-trivial: the policy was consulted at least twice.  Distinct by case digest.")
 ASSUMPTIONS = ["network, clock, executor and event loop are simulated (sim/); Cluster, Session, pools, connections, "
                "ResponseFuture and RetryPolicy dispatch are the real classes",
                "after a connection error the same host or the next plan host are both accepted for a RETRY decision "
                "(the pool of the failed connection may or may not be usable again)",
+               "is_idempotent is a public attribute of Statement; the flag of the statement object passed to execute_async decides "
+               "(BoundStatement copies the PreparedStatement's flag once, at bind time); no demand is made that an idempotent "
+               "statement IS executed speculatively, only that a non-idempotent one never is",
                "pre-emption only at blocking operations (part blocking) / additionally at every lock operation and clock read (part locks)"]
 
 RETRYABLE = sorted(F.ERRORS)
@@ -56,6 +63,8 @@ def s_case(gran):
         "stmt": st.sampled_from(["simple", "simple", "bound", "batch"]),
         "cl": st.sampled_from([None, "ONE", "QUORUM", "ALL"]),
         "idempotent": st.booleans(),
+        # where the executed statement's flag comes from, and what the object it was derived from / contains says
+        "idem_src": st.sampled_from(["inherit", "inherit", "own", "own", "late"]),
         "policy_on": st.sampled_from(["profile", "profile", "statement"]),
         "spec": st.sampled_from([0, 0, 1, 2]),
         "spec_delay": st.sampled_from([0.0, 0.05]),
@@ -129,16 +138,26 @@ def _statement(case, sim, session):
     cl = F.CL_CODE[case["cl"]] if case["cl"] else None
     if case["stmt"] == "simple":
         return SimpleStatement(F.USER_Q, consistency_level=cl, is_idempotent=case["idempotent"])
+    # The flag that counts is the one of the statement handed to execute_async (case["idempotent"]).  idem_src says
+    # how it got there: "inherit" = copied from the PreparedStatement at bind time (flags agree); "own" = set on the
+    # bound/batch statement itself while the PreparedStatement / the contained statement says the opposite;
+    # "late" = bound while the flags agreed, the PreparedStatement's flag was flipped afterwards.
+    src = case.get("idem_src", "inherit")
+    idem = case["idempotent"]
     if case["stmt"] == "bound":
         ps = sim.call(session.prepare, "SELECT k FROM t WHERE k=0")
         sim.settle()
-        ps.is_idempotent = case["idempotent"]
+        ps.is_idempotent = (not idem) if src == "own" else idem
         b = ps.bind(())
+        if src == "own":
+            b.is_idempotent = idem
+        elif src == "late":
+            ps.is_idempotent = not idem
         b.consistency_level = cl
         return b
     b = BatchStatement(consistency_level=cl)
-    b.add(SimpleStatement("INSERT INTO t (k) VALUES (1)"))
-    b.is_idempotent = case["idempotent"]
+    b.add(SimpleStatement("INSERT INTO t (k) VALUES (1)", is_idempotent=idem if src == "inherit" else (not idem)))
+    b.is_idempotent = idem
     return b
 
 
@@ -188,6 +207,9 @@ def _run(case, ctx, sim):
     for nd in nodes:
         nd.on_request = user
     concurrent = bool(case["spec"]) and case["idempotent"]
+    # the related object (PreparedStatement of a bound statement, statement inside a batch) carries the opposite flag
+    disagree = case["stmt"] != "simple" and case.get("idem_src", "inherit") != "inherit"
+    related = "agrees" if not disagree else ("prepared-says-%s" if case["stmt"] == "bound" else "inner-says-%s") % (not case["idempotent"])
     mode = "concurrent" if concurrent else "sequential"
     out = []
 
@@ -219,10 +241,13 @@ def _run(case, ctx, sim):
         if len(held) > 1:
             overlap = True
             if not concurrent:
-                ctx.fail(["C16.speculative", "idempotent=%s" % case["idempotent"], "spec=%s" % bool(case["spec"])],
+                ctx.fail(["C16.speculative", "idempotent=%s" % case["idempotent"], "spec=%s" % bool(case["spec"])]
+                         + ([related] if disagree and case["spec"] else []),
                          "%d attempts of one execution are in flight at once (%r) although %s" % (
                              len(held), [index[h[0].address] for h in held],
-                             "the statement is not idempotent" if case["spec"] else "there is no speculative execution policy"))
+                             ("the executed %s statement is not idempotent (flag source %s, %s)" % (
+                                 case["stmt"], case.get("idem_src", "inherit"), related))
+                             if case["spec"] else "there is no speculative execution policy"))
                 break
         node, conn, req = held[idx % len(held)] if concurrent else held[0]
         nt0, nr0 = len(timeline), len(rlog)
@@ -352,6 +377,14 @@ def _run(case, ctx, sim):
     ctx.label("mode=%s" % mode, "stmt=%s" % case["stmt"], "policy-on-%s" % case.get("policy_on", "profile"), "consulted=%d" % min(len(rlog), 4), "frames=%d" % min(n_frames, 5))
     if case["spec"] and not case["idempotent"]:
         ctx.label("spec-policy+non-idempotent")
+    if disagree:
+        ctx.label("idem-flag:%s:%s" % (case["stmt"], related), "idem-src=%s" % case["idem_src"])
+        if case["spec"]:
+            # the gating must follow the executed statement's own flag in both directions
+            ctx.label("spec-policy+flags-disagree:%s" % ("must-not-speculate" if not case["idempotent"] else "may-speculate"))
+            waited = any(s[1] for s in script[:len(answered)]) or case["spec_delay"] == 0.0
+            if waited and not case["idempotent"]:
+                ctx.label("spec-policy+flags-disagree:must-not-speculate:first-host-slower-than-delay")
     if overlap:
         ctx.label("speculative-overlap-seen")
     if any(e["decision"][0] in ("retry", "next_host") and e["decision"][1] is not None for e in rlog):
